@@ -1,6 +1,7 @@
 import Tw.Proofs.NetLazy
 import Tw.Proofs.NetC01Final
 import Tw.Proofs.NetC01Total
+import Tw.Proofs.NetFault
 
 /-!
 # C20 — the multi-peer endpoint keeps peers isolated
@@ -456,5 +457,48 @@ theorem d22_legacy_witness :
       legacyStep { now := 0, draws := [0x01020304] } net2 (.accept 0) =
         .error (.panic "accept: assert is_unconnected") := by
   refine ⟨_, _, _, _, rfl, rfl, by decide, by decide⟩
+
+/-! ## `Callback::send` fails (`Model/NetFault.lean`: `stepF`, armed faults per destination) -/
+
+/-- **A peer is gone after the application ended it, whatever the callback answered**: after
+`disconnect` / `reject` / `ignore` under any armed send faults — in particular when the `send` of the
+close datagram returns `Err` — the peer id is absent and the address is unknown again. -/
+theorem gone_after_close_even_if_send_fails (env : Env) (net net' : Net) (arms arms' : Arms)
+    (pid : Nat) (p : Peer) (reason : Bytes) (r : Ret) (o : Out) (x : List (Nat × Packet))
+    (hi : PInv net.peers) (hl : lookup net.peers pid = some p)
+    (hs : stepF env net arms (.disconnect pid reason) = .ok (net', r, o, x, arms') ∨
+          stepF env net arms (.reject pid reason) = .ok (net', r, o, x, arms') ∨
+          stepF env net arms (.ignore pid) = .ok (net', r, o, x, arms')) :
+    lookup net'.peers pid = none ∧ slot net'.peers p.addr = none := by
+  rcases hs with h | h | h
+  · obtain ⟨o0, h0⟩ := stepF_state env net net' arms arms' _ r o x
+      (fun a => (fromResend_close env net pid reason a).1) h
+    exact gone_after_close env net net' pid p reason r o0 hi hl (.inl h0)
+  · obtain ⟨o0, h0⟩ := stepF_state env net net' arms arms' _ r o x
+      (fun a => (fromResend_close env net pid reason a).2.1) h
+    exact gone_after_close env net net' pid p reason r o0 hi hl (.inr (.inl h0))
+  · obtain ⟨o0, h0⟩ := stepF_state env net net' arms arms' _ r o x
+      (fun a => (fromResend_close env net pid reason a).2.2) h
+    exact gone_after_close env net net' pid p reason r o0 hi hl (.inr (.inr h0))
+
+/-- **A failed send changes nothing but the datagram**: a call that does not run the retransmission
+loop (every call except `tick` with a due retransmission and `feed` of a resend request) ends, under
+any armed send faults, in exactly the state and with the return value of the same call with an
+infallible `send`. -/
+theorem failed_send_is_a_lost_datagram (env : Env) (net net' : Net) (arms arms' : Arms) (op : Op)
+    (r : Ret) (o : Out) (x : List (Nat × Packet)) (hc : ∀ a, fromResend env net op a = false)
+    (h : stepF env net arms op = .ok (net', r, o, x, arms')) :
+    ∃ o0, step env net op = .ok (net', r, o0) :=
+  stepF_state env net net' arms arms' op r o x hc h
+
+/-- non-vacuity: a pending peer at address 1 is rejected while the next `send` to 1 fails — the close
+datagram is not sent (it is the reported failure), the armed fault is used up, no peer is left -/
+example :
+    (match step { now := 0 } (Net.new true) (.feed 1 (connectReq true)) with
+     | .ok (net1, _, _) =>
+       (match stepF { now := 0 } net1 [(1, 1)] (.reject 0 [98]) with
+        | .ok (net2, _, o, x, arms) => net2.peers.isEmpty && o.sent.isEmpty && x.length == 1 && arms.isEmpty
+        | .error _ => false)
+     | .error _ => false) = true := by decide
 
 end Tw.Props.C20
